@@ -112,6 +112,8 @@ def project_field(e, inner):
             for f, fe in a[3]:
                 if f == e[1]:
                     return fe
+        if a[0] == "call" and a[1] == "std::ops::FromResidual::from_residual" and e[3] in ("Ok", "Some"):
+            return ("unknown", "variant-mismatch")     # the residual of `?` is an Err/None by construction
         return ("field", e[1], e[2], e[3], a)
     if inner[0] == "phi":
         return mkphi(tuple(one(a) for a in inner[1]))
@@ -445,6 +447,8 @@ def def_alternatives(F, X, body, op, depth=4, want=None, keep=(), _seen=None, _f
         elif kind == "call":
             c = Call(body, bi, payload)
             name = c.resolved or c.name
+            if c.name == "std::ops::FromResidual::from_residual" and want is not None and set(want) & {"Ok", "Some"}:
+                continue                     # the residual of `?`: an Err/None, it carries no payload of the wanted kind
             if c.name == "std::ops::Try::branch" and c.args and want is not None:
                 for e, vf, cf, wh in def_alternatives(F, X, body, c.args[0], depth, ("Ok", "Some"), keep, _seen, _file):
                     out.append((e, vf0 + vf, cf0 + cf, wh))
